@@ -71,16 +71,51 @@ func (c *Case) SetNode(n world.NodeSpec) {
 func (c *Case) NodeData(p string) []byte {
 	for i := range c.Spec.Nodes {
 		if c.Spec.Nodes[i].Path == p {
+			if c.Spec.Nodes[i].Kind == "hardlink" {
+				return c.NodeData(c.Spec.Nodes[i].Target)
+			}
 			return c.Spec.Nodes[i].Data
 		}
 	}
 	return nil
 }
 
+// AddHardlinkTarget gives one of the matching target files a second name that
+// is itself a requested Go file. Two names of one inode are two files: each is
+// processed once, and what is done to one must not be done to the other again.
+func AddHardlinkTarget(c *Case, r *world.PRNG) bool {
+	var cands []FileMeta
+	for _, f := range c.Files {
+		if f.Role == "match" && !strings.Contains(f.Path, "/hl_") {
+			cands = append(cands, f)
+		}
+	}
+	if len(cands) == 0 {
+		return false
+	}
+	f := cands[r.Intn(len(cands))]
+	dir := r.Pick([]string{path.Dir(f.Path), ProjDir, ProjDir + "/zz"})
+	p := dir + "/hl_" + path.Base(f.Path)
+	for _, n := range c.Spec.Nodes {
+		if n.Path == p {
+			return false
+		}
+	}
+	c.Spec.Nodes = append(c.Spec.Nodes, world.NodeSpec{Path: p, Kind: "hardlink", Target: f.Path})
+	c.Files = append(c.Files, FileMeta{Path: p, Role: f.Role, Markers: f.Markers, Note: f.Note})
+	c.Extra["hardlink_target"] = "1"
+	return true
+}
+
 // DropFile removes a target file (node, metadata and any argument naming it).
 func (c *Case) DropFile(p string) {
 	nodes := c.Spec.Nodes[:0:0]
+	data := c.NodeData(p)
 	for _, n := range c.Spec.Nodes {
+		if n.Kind == "hardlink" && n.Target == p {
+			// the other name of the dropped file lives on as a file of its own
+			n = world.NodeSpec{Path: n.Path, Kind: "file", Data: append(world.Bytes(nil), data...)}
+		}
 		if n.Path != p {
 			nodes = append(nodes, n)
 		}
